@@ -222,6 +222,7 @@ func init() {
 		ReplayUnit:  "TestC19Replay",
 		Units: []Unit{
 			{Name: "TestC19", Kind: "e2e", Checks: [2]int{6, 40}, Workers: [2]int{3, 8}},
+			{Name: "TestC19Foreign", Kind: "e2e", Checks: [2]int{30, 400}, Workers: [2]int{2, 4}},
 		},
 	}
 }
@@ -261,6 +262,7 @@ func init() {
 		Units: []Unit{
 			{Name: "TestVerifC08Replacer", Kind: "inproc", Pkg: ".", Checks: [2]int{20000, 500000}, Workers: [2]int{1, 4}},
 			{Name: "TestC08", Kind: "e2e", Checks: [2]int{3, 30}, Workers: [2]int{3, 8}},
+			{Name: "TestC08Partial", Kind: "e2e", Checks: [2]int{4, 30}, Workers: [2]int{3, 8}},
 		},
 	}
 }
